@@ -183,6 +183,9 @@ theorem update_spec {syms : List SymbolInfo} {c c' : Ctx} {n : Nat} (h : c.updat
       cases h
       exact ⟨rfl, rfl, rfl, rfl, rfl, rfl, s0, hs, by omega, Or.inl hs⟩
 
+theorem hasMore_iff' (c : Ctx) : c.hasMore = true ↔ c.pos < c.total := by simp [Ctx.hasMore]
+theorem hasMore_false_iff' (c : Ctx) : c.hasMore = false ↔ ¬ c.pos < c.total := by simp [Ctx.hasMore]
+
 theorem cur_spec {c : Ctx} {ch : Nat} (h : c.cur = .ok ch) : c.msg[c.pos]? = some ch ∧ c.pos < c.msg.length := by
   unfold Ctx.cur at h
   split at h
